@@ -133,7 +133,7 @@ def constants_of(path, names, cls=None):
 
 def child_batch_size(path):
     """the size at which ItemSession.add_url commits its batch: the method must have exactly one statement of the shape
-         if len(self._add_url_batch) >= <int>:  <add_many(self._add_url_batch)>; <self._add_url_batch.clear()>
+         if len(self.<batch>) >= <int>:  <...add_many(self.<batch>)>; <self.<batch>.clear()>
     and no other use of a numeric threshold; anything else is Unsupported"""
     tree = ast.parse(open(path).read(), path)
     cls = [n for n in tree.body if isinstance(n, ast.ClassDef) and n.name == 'ItemSession']
@@ -148,12 +148,15 @@ def child_batch_size(path):
         t = n.test
         if isinstance(t, ast.Compare) and len(t.ops) == 1 and isinstance(t.ops[0], ast.GtE) and \
                 isinstance(t.left, ast.Call) and isinstance(t.left.func, ast.Name) and t.left.func.id == 'len' and \
-                len(t.left.args) == 1 and ast.dump(t.left.args[0]) == ast.dump(ast.parse('self._add_url_batch', mode='eval').body) and \
+                len(t.left.args) == 1 and isinstance(t.left.args[0], ast.Attribute) and \
                 isinstance(t.comparators[0], ast.Constant) and isinstance(t.comparators[0].value, int) and \
                 not isinstance(t.comparators[0].value, bool) and not n.orelse:
             calls = [ast.dump(x.value.func) for x in n.body if isinstance(x, ast.Expr) and isinstance(x.value, ast.Call)]
-            want_clear = ast.dump(ast.parse('self._add_url_batch.clear', mode='eval').body)
-            if len(n.body) == 2 and len(calls) == 2 and calls[1] == want_clear and 'add_many' in calls[0]:
+            batch = ast.dump(t.left.args[0])
+            want_clear = ast.dump(ast.Attribute(value=t.left.args[0], attr='clear', ctx=ast.Load()))
+            args_ok = len(n.body) == 2 and isinstance(n.body[0], ast.Expr) and isinstance(n.body[0].value, ast.Call) and \
+                [ast.dump(a) for a in n.body[0].value.args] == [batch]
+            if args_ok and len(calls) == 2 and calls[1] == want_clear and 'add_many' in calls[0]:
                 found.append(t.comparators[0].value)
                 continue
         if any(isinstance(x, ast.Call) and isinstance(x.func, ast.Name) and x.func.id == 'len' for x in ast.walk(t)):
